@@ -64,7 +64,7 @@ INT_TYPES = ["A", "AA", "S", "U", "TU", "P", "W", "AS", "G", "AW"]
 # mem_swap operands (a Python tuple cannot take new contents in place: no TU); struct types with a classical
 # field next to the non-copyable ones are listed twice
 SWAP_TYPES = ["S", "S", "P", "P", "U", "AS", "A", "AA", "W", "G", "AW", "Q2", "L"]
-CLASSICAL_FIELD = {"S", "P", "U", "AS"}  # types holding a classical (copyable) field below a non-copyable value
+CLASSICAL_FIELD = {"S", "P", "U", "W", "AS", "AW"}  # types holding a classical (copyable) field below a non-copyable value
 QUBIT_TYPES = INT_TYPES + ["L", "Q2"]
 
 
@@ -79,10 +79,10 @@ def decls(leaf, N, M):
     s = (f"@guppy.struct\nclass S:\n    xs: {a}\n    k: int\n    ys: {a}\n\n"
          f"@guppy.struct\nclass U:\n    s: S\n    zs: {a}\n\n"
          f"@guppy.struct\nclass P:\n    t: tuple[{a}, {a}]\n    k: int\n\n"
-         f"@guppy.struct\nclass W:\n    xss: array[{a}, {M}]\n\n"
+         f"@guppy.struct\nclass W:\n    xss: array[{a}, {M}]\n    k: int\n\n"
          # reads the classical field of a struct that is an array element (`ss[0].k` is rejected:
          # 'Subscript consumed'); borrows the element
-         "@guppy\ndef k_of(s: S) -> int:\n    return s.k\n")
+         "@guppy\ndef k_of(s: S) -> int:\n    return s.k\n\n@guppy\ndef kw_of(w: W) -> int:\n    return w.k\n")
     if leaf == "qubit":
         s += "\n@guppy.struct\nclass Q2:\n    a: qubit\n    b: qubit\n"
     return s
@@ -164,6 +164,7 @@ class Gen:
         self.excluded_idx = 0
         self.sibling_used = False
         self.nested_idx_used = False
+        self.in_fn = False
 
     def pick(self, xs):
         return xs[self.r.randrange(len(xs))]
@@ -250,7 +251,7 @@ class Gen:
                             "depth": max(len(a1[1]), len(b1[1])), "shapes": [shape_of(a1[1]), shape_of(b1[1])]}
             names = []
             if max_level > 0:
-                a, names = self.call_index(a, roots, ctx, max_level, [], False)
+                a, names, _ = self.call_index(a, roots, ctx, max_level, [], False)
             return {"lines": [f"x({render(*a)})"], "kind": "x", "depth": len(a[1]), "shapes": [shape_of(a[1])],
                     "callees": names}
         a = self.place(roots, "A", ctx)
@@ -314,10 +315,11 @@ class Gen:
     def call_index(self, pl, roots, ctx, max_level, taken, comp):
         """maybe turn subscript indices of the argument place `pl` into calls `f(<borrowed places>, ...) % n` of a
         pool function with an int result: evaluating the index updates the places lent to f (once, when the
-        argument is evaluated).  -> (place, [callee names])"""
+        argument is evaluated).  The places lent in an index overlap no other argument of the enclosing call (the
+        checker treats all borrows of one call as simultaneous).  -> (place, [callee names], [places lent in indices])"""
         subs = [k for k, st in enumerate(pl[1]) if st[0] == "i"]
         if not subs or not self.chance(CALL_INDEX_PCT):
-            return pl, []
+            return pl, [], []
         chosen = [k for k in subs if self.chance(60)] or [self.pick(subs)]
         if len(chosen) > 1:
             if "nested-call-indices" in EXCLUDE:
@@ -327,7 +329,7 @@ class Gen:
                 self.nested_idx_used = True
         steps = list(pl[1])
         held = list(taken) + [pl]
-        names = []
+        names, lent = [], []
         for k in chosen:
             inner = self.call_expr(roots, ctx, max_level, held, need_ret=True, call_idx=False, comp=comp)
             if inner is None:
@@ -335,11 +337,12 @@ class Gen:
             n = self.M if steps[k][2] == "iM" else self.N
             steps[k] = ("i", f"{inner['call']} % {n}", steps[k][2])
             held += inner["places"]
+            lent += inner["places"]
             names += inner["callees"]
         new = (pl[0], steps)
         if not names or any(may_overlap(new, t) or sibling_conflict(new, t) for t in held if t is not pl):
-            return pl, []
-        return new, names
+            return pl, [], []
+        return new, names, lent
 
     def call_expr(self, roots, ctx, max_level, taken0=(), need_ret=False, call_idx=True, comp=False):
         """a call of a pool function below max_level lending places below `roots` that overlap neither each
@@ -358,8 +361,9 @@ class Gen:
                     ok = False
                     break
                 if call_idx:
-                    pl, names = self.call_index(pl, roots, ctx, max_level, taken, comp)
+                    pl, names, lent = self.call_index(pl, roots, ctx, max_level, taken, comp)
                     callees += names
+                    taken += lent
                 taken.append(pl)
                 places.append(pl)
             if not ok:
@@ -391,11 +395,34 @@ class Gen:
                 lines = [f"w{self.counter} = {call}"]
         return {"lines": lines, "kind": "call", "depth": max(len(p[1]) for p in taken), "callee": f["name"],
                 "callees": c["callees"][1:], "comprehension": comp,
+                # a struct with a classical field lent as variable / field (the place is tracked leaf by leaf)
+                "lends_struct": any(t in ("S", "U", "P", "W") and not any(st[0] == "i" for st in p[1])
+                                    for (_, t), p in zip(f["params"], taken)),
                 "shapes": [shape_of(p[1]) for p in taken], "nargs": len(taken), "sibling": sib}
+
+    def stmt_swap_fresh(self, roots, ctx, types):
+        """exchange a place with a fresh local value: the borrowed place holds a completely new value afterwards,
+        classical fields included (the old value is dropped with the local; qubits cannot be dropped: int only)"""
+        cands = list(types)
+        self.r.shuffle(cands)
+        for t in cands:
+            a = self.place(roots, t, ctx)
+            if a is not None:
+                tmp = f"t{self.fresh()}"
+                self.in_fn = ctx == "fn"
+                val = self.init(t)
+                self.in_fn = False
+                return {"lines": [f"{tmp} = {val}", f"mem_swap({render(*a)}, {tmp})"], "kind": "memswap",
+                        "swapped": t, "fresh": True, "depth": len(a[1]), "shapes": [shape_of(a[1])]}
+        return None
 
     def stmt_memswap(self, roots, ctx):
         """`mem_swap(a, b)` on two non-overlapping places of one type: both keep their identity and exchange their
         values, classical struct fields included."""
+        if self.leaf == "int" and self.chance(45):
+            s = self.stmt_swap_fresh(roots, ctx, sorted(CLASSICAL_FIELD))
+            if s is not None:
+                return s
         cands = [t for t in SWAP_TYPES if t in self.types]
         self.r.shuffle(cands)
         if self.chance(60):
@@ -416,9 +443,9 @@ class Gen:
         s = None
         if level > 0 and k < (50 if ctx != "case" else 100):
             s = self.stmt_call(roots, ctx, level)
-        elif k < 68:
+        elif k < 66:
             s = self.stmt_write(roots, ctx, level)
-        elif k < 78:
+        elif k < 77:
             s = self.stmt_memswap(roots, ctx)
         elif k < 88:
             s = self.stmt_loop(roots, ctx)
@@ -450,6 +477,11 @@ class Gen:
             c = self.stmt_call(params, "fn", level)
             if c:
                 body.insert(self.r.randrange(len(body) + 1), c)
+        if self.leaf == "int" and self.chance(60):
+            # classical fields of a borrowed struct change only together with the whole struct
+            sw = self.stmt_swap_fresh(params, "fn", sorted(CLASSICAL_FIELD))
+            if sw:
+                body.insert(self.r.randrange(len(body) + 1), sw)
         if self.chance(20):
             early = self.stmt_write(params, "fn")
             if early:
@@ -469,6 +501,11 @@ class Gen:
         return f
 
     # --- cases
+    def classical(self):
+        """value of a classical field: a constant in a case function, may depend on i, j, v in a pool function"""
+        c = self.fresh()
+        return str(c) if not self.in_fn else self.pick([str(c), f"v + {c}", f"v + {c}", f"j * 10 + {c}", f"i + {c}"])
+
     def init(self, t):
         N, M = self.N, self.M
         if t == "L":
@@ -480,15 +517,15 @@ class Gen:
         if t == "AA":
             return "array(" + ", ".join(self.init("A") for _ in range(M)) + ")"
         if t == "S":
-            return f"S({self.init('A')}, {self.fresh()}, {self.init('A')})"
+            return f"S({self.init('A')}, {self.classical()}, {self.init('A')})"
         if t == "U":
             return f"U({self.init('S')}, {self.init('A')})"
         if t == "TU":
             return f"({self.init('A')}, {self.init('A')})"
         if t == "P":
-            return f"P({self.init('TU')}, {self.fresh()})"
+            return f"P({self.init('TU')}, {self.classical()})"
         if t == "W":
-            return f"W({self.init('AA')})"
+            return f"W({self.init('AA')}, {self.classical()})"
         if t == "AS":
             return "array(" + ", ".join(self.init("S") for _ in range(M)) + ")"
         if t == "Q2":
@@ -526,9 +563,11 @@ class Gen:
                     rep(f"{var}.zs", f"{var}.zs")]
         if t in ("G", "AW"):
             if q:
-                return [f"for {var}_p in {var}:", f"    for {var}_row in {var}_p{'.xss' if t == 'AW' else ''}:",
-                        "        " + rep(f"{var}.row", f"{var}_row")]
-            return [rep(f"{var}[{m}][{n}]", f"{var}[{m}]{'.xss' if t == 'AW' else ''}[{n}]") for m in range(M) for n in range(M)]
+                return ([f"for {var}_p in {var}:"] + (["    " + cls(f"{var}.k", f"{var}_p.k")] if t == "AW" else []) +
+                        [f"    for {var}_row in {var}_p{'.xss' if t == 'AW' else ''}:", "        " + rep(f"{var}.row", f"{var}_row")])
+            return [x for m in range(M) for x in
+                    ([cls(f"{var}[{m}].k", f"kw_of({var}[{m}])")] if t == "AW" else []) +
+                    [rep(f"{var}[{m}][{n}]", f"{var}[{m}]{'.xss' if t == 'AW' else ''}[{n}]") for n in range(M)]]
         if t == "Q2":
             return [f'result("@K@{var}.a", measure({var}.a))', f'result("@K@{var}.b", measure({var}.b))']
         if t in ("TU", "P"):
@@ -539,9 +578,10 @@ class Gen:
             return kk + [rep(f"{var}[0]", f"{src}[0]"), rep(f"{var}[1]", f"{src}[1]")]
         if t in ("AA", "W"):
             src = var if t == "AA" else f"{var}.xss"
+            kk = [cls(f"{var}.k", f"{var}.k")] if t == "W" else []
             if q:
-                return [f"for {var}_row in {src}:", "    " + rep(f"{var}.row", f"{var}_row")]
-            return [rep(f"{var}[{m}]", f"{src}[{m}]") for m in range(M)]
+                return kk + [f"for {var}_row in {src}:", "    " + rep(f"{var}.row", f"{var}_row")]
+            return kk + [rep(f"{var}[{m}]", f"{src}[{m}]") for m in range(M)]
         if t == "AS":
             if q:
                 return [f"for {var}_s in {var}:", "    " + cls(f"{var}.k", f"{var}_s.k"), "    " + rep(f"{var}.xs", f"{var}_s.xs"),
@@ -827,6 +867,8 @@ def classify(prog1):
     for s in list(c["body"]) + [s for _, s in stmts_reachable(prog1)]:
         if s.get("comprehension"):
             labels.add("comprehension")
+            if s.get("lends_struct"):
+                labels.add("comprehension-lends-struct")
         if s["kind"] == "memswap":
             labels.add("memswap:" + s["swapped"])
         for sh in s.get("shapes", []):
